@@ -1,6 +1,7 @@
 package main
 
 import (
+	"sort"
 	"fmt"
 	"go/types"
 	"regexp"
@@ -45,6 +46,14 @@ func (x *Exec) registerAxioms() error {
 						trig = append(trig, s)
 					}
 				}
+				// a quantified axiom can only be instantiated through an application that has a bound
+				// variable as a direct argument: those symbols alone pull it into a query
+				if len(binders) > 0 {
+					if direct := directVarSymbols(text); len(direct) > 0 {
+						trig = direct
+					}
+				}
+				sort.Strings(trig)
 				addAxiom("axiom "+sf.Pkg+"::"+l.Name, trig, text)
 				x.axiomNames = append(x.axiomNames, sf.Pkg+"::"+l.Name+": "+l.Text)
 			}()
@@ -860,4 +869,29 @@ func (x *Exec) soleConstructor(oi *ObjInv) (bool, string) {
 		}
 	}
 	return ok2, where
+}
+
+// directVarSymbols lists the ghost symbols applied directly to a bound variable ("|a name|") in text.
+func directVarSymbols(text string) []string {
+	seen := map[string]bool{}
+	var walk func(n *sexp)
+	walk = func(n *sexp) {
+		if n == nil || !n.isL {
+			return
+		}
+		if len(n.list) > 1 && !n.list[0].isL && (strings.HasPrefix(n.list[0].atom, "|ghost ") || strings.HasPrefix(n.list[0].atom, "|G ")) {
+			for _, a := range n.list[1:] {
+				if !a.isL && strings.HasPrefix(a.atom, "|a ") {
+					seen[n.list[0].atom] = true
+				}
+			}
+		}
+		for _, c := range n.list {
+			walk(c)
+		}
+	}
+	for _, n := range parseSexps(text) {
+		walk(n)
+	}
+	return sortedKeys(seen)
 }
